@@ -101,7 +101,7 @@ def judge2_c07(line, impl):
         sent = "".join(w for w in t[6].split(",") if w != "-") or "-"
         return ("recread %s %s %s %s %s %s" % (t[1], t[2], t[3], t[4], wire, sent), "%s eof 1" % sent)
     return None
-HOOK_COMMITS = ["f0964c3", "f0ee85c", "a38392f", "da161e5", "5e35e30", "48a35e4", "bcc879f", "e7e32d2", "7bc6616", "1d0b9a9", "1418b64", "cbd428e", "2855402", "ccf80ce", "3a7a9aa", "9982186", "9f32c22"]
+HOOK_COMMITS = ["f0964c3", "f0ee85c", "a38392f", "da161e5", "5e35e30", "48a35e4", "bcc879f", "e7e32d2", "7bc6616", "1d0b9a9", "1418b64", "cbd428e", "2855402", "ccf80ce", "3a7a9aa", "9982186", "9f32c22", "4c97fac"]
 NOT_BUILT_REASON = "no check registered yet: the Lean model/theorems and the correspondence harness for this property have not been built in this session (work in progress, see DESIGN.md §12); the technique applies"
 
 PROPS["C05"] = {
@@ -228,8 +228,9 @@ PROPS["C07"] = {
     "tie_ops": ["expad"],
     "judge": judge_c07,
     "judge2": judge2_c07,
-    "modules": ["Gmsm.Props.C07", "Gmsm.Props.C07CBC", "Gmsm.Props.C07Pad", "Gmsm.Props.C07Stream", "Gmsm.Props.C06Read"],
+    "modules": ["Gmsm.Props.C07", "Gmsm.Props.C07CBC", "Gmsm.Props.C07Pad", "Gmsm.Props.C07Stream", "Gmsm.Props.C06Read", "Gmsm.Props.C07Trunc"],
     "theorems": [
+        "Props.C07Trunc.parse_eof_iff", "Props.C07Trunc.parse_truncated", "Props.C07Trunc.truncated_inside_record", "Props.C07Trunc.write_truncated_rejected", "Props.C07Trunc.truncation_detected", "Props.C07Trunc.transport_end_clean_iff", "Props.C07Trunc.read_truncated_is_error", "Props.C07Trunc.readHandshake_trunc", "Props.C07Trunc.recvCCS_trunc",
         "Props.C06Read.read_stream",
         "Props.C06Read.read_after_error",
         "Props.C06Read.read_empty_limit_hit",
@@ -270,8 +271,9 @@ PROPS["C07"] = {
 
 PROPS["C10"] = {
     "judge": judge_c10,
-    "modules": ["Gmsm.Props.C10", "Gmsm.Props.C10Complete", "Gmsm.Props.C10Host"],
+    "modules": ["Gmsm.Props.C10", "Gmsm.Props.C10Complete", "Gmsm.Props.C10Host", "Gmsm.Props.C10Parents"],
     "theorems": [
+        "Props.C10.goodSuffix_mono", "Props.C10.buildChains_mono", "Props.C10.candidates_mono", "Props.C10.verify_mono", "Props.C10.checkSigFrom_parent_ca", "Props.C10.checkSigFrom_child_key_irrelevant", "Props.C10.verify_issuers_ca", "Props.C10.findVerifiedParents_mono",
         "Props.C10.mem_findVerifiedParents", "Props.C10.buildChains_sound", "Props.C10.verify_sound",
         "Props.C10.buildChains_budget", "Props.C10.eku_unrestricted", "Props.C10.mem_findVerifiedParents_iff", "Props.C10.findVerifiedParents_complete", "Props.C10.buildChains_complete", "Props.C10.goodSuffix_length_le", "Props.C10.verify_complete", "Props.C10.verify_chains_exact", "Props.C10.verify_iff_exists_good_path", "Props.C10.verify_only_if_good_path", "Props.C10.matchHostnames_eq", "Props.C10.matchLabels_cons", "Props.C10.wildcard_one_label", "Props.C10.wildcard_leftmost_only",
     ],
@@ -314,8 +316,9 @@ PROPS["C03"] = {
 
 PROPS["C01"] = {
     "judge2": judge2_c01,
-    "modules": ["Gmsm.Props.C01", "Gmsm.Props.C03", "Gmsm.Props.SM2Group", "Gmsm.Props.C14Codec"],
+    "modules": ["Gmsm.Props.C01", "Gmsm.Props.C03", "Gmsm.Props.SM2Group", "Gmsm.Props.C14Codec", "Gmsm.Props.C09Sig"],
     "theorems": [
+        "Props.C09Sig.verifySM2_eq_spec", "Props.C09Sig.decode_eq_strict", "Props.C09Sig.extra_member_rejected", "Props.C09Sig.unmarshalRS_of_decSig",
         "Props.C01.verify_range", "Props.C01.verify_altered_msg_iff", "Props.C01.verify_sign", "Props.C01.smul_mod_order",
         "Props.C01.der_roundtrip", "Props.C01.der_trailing_rejected", "Props.C01.decIntContent_intContent",
         "Props.C03.nonce_range", "Props.C03.n_prime", "Props.SM2Group.verify_signWith", "Proofs.SM2Affine.padd_eq", "Proofs.SM2Affine.smul_eq", "Proofs.SM2Affine.invMod_eq", "Proofs.SM2Affine.toPoint_inj", "Props.SM2Group.smul_mod_G", "Props.C14Codec.der_canonical", "Props.C14Codec.der_unique", "Props.C14Codec.der_canonical_iff", "Props.C14Codec.der_roundtrip_all", "Props.C14Codec.decLen_encLen_all",
@@ -379,8 +382,9 @@ PROPS["C14"] = {
 
 PROPS["C09"] = {
     "judge": judge_c09,
-    "modules": ["Gmsm.Props.C09", "Gmsm.Props.C09Ext", "Gmsm.Props.C09Names"],
+    "modules": ["Gmsm.Props.C09", "Gmsm.Props.C09Ext", "Gmsm.Props.C09Names", "Gmsm.Props.C09Sig"],
     "theorems": [
+        "Props.C09.emitted_algorithm_names_scheme", "Props.C09.creators_pass_pss_options", "Props.C09.csr_pss_signed_with_pss", "Props.C09.hash_only_creator_mislabels_pss", "Props.C09Sig.decode_eq_strict", "Props.C09Sig.decode_injective", "Props.C09Sig.extra_member_rejected", "Props.C09Sig.extra_member_never_verifies", "Props.C09Sig.lenient_accepts_extra_member", "Props.C09Sig.lenient_malleable", "Props.C09Sig.decode_encSig",
         "Props.C09Names.san_roundtrip",
         "Props.C09Names.sanIP_v4mapped",
         "Props.C09Names.sanIP_changes_only_mapped",
@@ -426,8 +430,9 @@ PROPS["C09"] = {
 
 PROPS["C17"] = {
     "tie_ops": ["ber2der", "p7pad", "p7unpad", "bmp", "unbmp", "p12fill"],
-    "modules": ["Gmsm.Props.C17", "Gmsm.Props.C17Idem", "Gmsm.Props.C17KDF"],
+    "modules": ["Gmsm.Props.C17", "Gmsm.Props.C17Idem", "Gmsm.Props.C17KDF", "Gmsm.Props.C17Key", "Gmsm.Props.C17Mem"],
     "theorems": [
+        "Props.C17Mem.padMem_frame", "Props.C17Mem.padMem_caller_buffer_unchanged", "Props.C17Mem.padMem_value", "Props.C17Mem.padInPlace_writes_caller_memory", "Props.C17Key.encode_accepts_iff", "Props.C17Key.parse_marshal", "Props.C17Key.parse_marshal_std", "Props.C17Key.stdParams_sane", "Props.C17Key.accepted_key_decodes", "Props.C17Key.rsa_bundle_decodes", "Props.C17Key.topem_writes_inner_key", "Props.C17Key.unknown_algorithm_rejected", "Props.C17Key.rsa_alg_needs_rsa_key",
         "Props.C17KDF.pbkdf_eq_spec",
         "Props.C17KDF.pbkdf_r0",
         "Props.C17KDF.pbkdf_length",
@@ -462,8 +467,9 @@ PROPS["C17"] = {
 
 PROPS["C18"] = {
     "judge": judge_parsers,
-    "modules": ["Gmsm.Props.C18", "Gmsm.Props.C18Linear", "Gmsm.Props.C18Output", "Gmsm.Props.C02", "Gmsm.Props.C17", "Gmsm.Props.C16", "Gmsm.Props.C16Codec", "Gmsm.Props.C14Codec", "Gmsm.Props.C17Idem", "Gmsm.Props.C15Codec", "Gmsm.Props.C09Names"],
+    "modules": ["Gmsm.Props.C18", "Gmsm.Props.C18Linear", "Gmsm.Props.C18Output", "Gmsm.Props.C02", "Gmsm.Props.C17", "Gmsm.Props.C16", "Gmsm.Props.C16Codec", "Gmsm.Props.C14Codec", "Gmsm.Props.C17Idem", "Gmsm.Props.C15Codec", "Gmsm.Props.C09Names", "Gmsm.Props.C15KeyAgreement"],
     "theorems": [
+        "Props.C15KeyAgreement.clientKx_never_panics", "Props.C15KeyAgreement.ecdheGM_always_error",
         "Props.C09Names.decSAN_total",
         "Props.C09Names.sanLoop_fuel",
         "Props.C09Names.decSAN_sound",
@@ -529,8 +535,9 @@ PROPS["C16"] = {
 }
 
 PROPS["C06"] = {
-    "modules": ["Gmsm.Props.C06", "Gmsm.Props.C06Keys", "Gmsm.Props.C07Stream", "Gmsm.Props.C15Complete", "Gmsm.Props.C06Read"],
+    "modules": ["Gmsm.Props.C06", "Gmsm.Props.C06Keys", "Gmsm.Props.C07Stream", "Gmsm.Props.C15Complete", "Gmsm.Props.C06Read", "Gmsm.Props.C08Inter"],
     "theorems": [
+        "Props.C06.exported_suites_negotiable", "Props.C06.ecdhe_rsa_aes128_cbc_rows", "Props.C08Inter.client_verifies_via_intermediate", "Props.C08Inter.certList_leaves_first",
         "Props.C06Read.read_spec",
         "Props.C06Read.read_stream",
         "Props.C06Read.read_chunk_independent",
@@ -566,8 +573,9 @@ PROPS["C06"] = {
 
 PROPS["C15"] = {
     "judge": lambda l, a, b: (judge_parsers(l, a, b) if l.split(" ", 1)[0] in ("hsmsg", "hsmsgm") else judge_class_only(("hsseq", "hsout", "hsflight", "chmod", "shmod"))(l, a, b)),
-    "modules": ["Gmsm.Props.C15", "Gmsm.Props.C15Codec", "Gmsm.Props.C15Complete", "Gmsm.Props.C06Read", "Gmsm.Props.C15Limits"],
+    "modules": ["Gmsm.Props.C15", "Gmsm.Props.C15Codec", "Gmsm.Props.C15Complete", "Gmsm.Props.C06Read", "Gmsm.Props.C15Limits", "Gmsm.Props.C15KeyAgreement"],
     "theorems": [
+        "Props.C15KeyAgreement.clientKx_never_panics", "Props.C15KeyAgreement.ecdheGM_always_error", "Props.C15KeyAgreement.processGM_refuses_all", "Props.C15KeyAgreement.processGMWith_sound", "Props.C15KeyAgreement.unchecked_share_panics", "Props.C15KeyAgreement.unchecked_share_x25519", "Props.C15KeyAgreement.rsa_goes_on_iff", "Props.C15KeyAgreement.rsa_wrong_key_is_error", "Props.C15KeyAgreement.clientKx_accepts_only_matching", "Props.C15KeyAgreement.generate_after_processTLS",
         "Props.C15Limits.mutualVersionLim_default", "Props.C15Limits.gap_refused", "Props.C15Limits.below_min_refused",
         "Props.C15Limits.agreed_version", "Props.C15Limits.dispatchLim_refuses",
         "Props.C06Read.read_terminates",
@@ -657,8 +665,9 @@ PROPS["C15"] = {
 }
 
 PROPS["C08"] = {
-    "modules": ["Gmsm.Props.C08"],
+    "modules": ["Gmsm.Props.C08", "Gmsm.Props.C08Inter", "Gmsm.Props.C15KeyAgreement"],
     "theorems": [
+        "Props.C08Inter.certList_leaves_first", "Props.C08Inter.certList_plain", "Props.C08Inter.certList_complete", "Props.C08Inter.certList_sound", "Props.C08Inter.certList_rest_nodup", "Props.C08Inter.server_chain_uses_rest", "Props.C08Inter.empty_pool_needs_direct_issuer", "Props.C08Inter.chainOK_via_intermediate", "Props.C08Inter.client_verifies_via_intermediate", "Props.C15KeyAgreement.ecdheGM_always_error",
         "Props.C08.clientVerdict_none_iff", "Props.C08.serverVerdict_none_iff", "Props.C08.peerCertsCheck_none_iff",
         "Props.C08.client_accepts_iff", "Props.C08.client_accepts_only_if", "Props.C08.verify_ok_nonempty",
         "Props.C08.client_chain_meaning", "Props.C08.client_auth_policy_table", "Props.C08.server_accepts_iff",
@@ -678,8 +687,9 @@ PROPS["C08"] = {
 }
 
 PROPS["C20"] = {
-    "modules": ["Gmsm.Props.C20", "Gmsm.Props.C20Interlock", "Gmsm.Props.C20Locks"],
+    "modules": ["Gmsm.Props.C20", "Gmsm.Props.C20Interlock", "Gmsm.Props.C20Locks", "Gmsm.Props.C17Mem"],
     "theorems": [
+        "Props.C17Mem.padMem_frame",
         "Props.C20Locks.must_sound", "Props.C20Locks.may_sound", "Props.C20Locks.must_ok", "Props.C20Locks.may_ok",
         "Props.C20Locks.no_touch_violation", "Props.C20Locks.no_reacquisition", "Props.C20Locks.order_edges_expected",
         "Props.C20Locks.facts_present", "Props.C20Locks.half_protected", "Props.C20Locks.half_call_protected",
